@@ -133,13 +133,37 @@ Proof.
   - destruct (w_exp w), (find_trial t (w_trials w)) as [tr|]; auto. destruct (t_fin tr); auto.
 Qed.
 
-(* DB entries are permanent as long as no deletion of an observation log is pending *)
-Lemma step_db_keep w a k x :
+Lemma db_get_map_upgrade k t z0 db x :
+  db_get k db = Some (Some x) ->
+  db_get k (map (fun p => if Nat.eqb (fst p) t then (t, Some z0) else p) db) = Some (Some x) \/ (k = t /\ True).
+Proof.
+  unfold db_get. induction db as [|a l IH]; cbn; [discriminate|].
+  destruct (Nat.eqb (fst a) k) eqn:Ek.
+  - intros [= E]. destruct (Nat.eqb (fst a) t) eqn:Et.
+    + right. apply Nat.eqb_eq in Ek, Et. split; [congruence|exact I].
+    + left. cbn. rewrite Ek. now rewrite E.
+  - intro H. destruct (Nat.eqb (fst a) t) eqn:Et.
+    + cbn. destruct (Nat.eqb t k) eqn:Etk.
+      * right. apply Nat.eqb_eq in Etk. auto.
+      * exact (IH H).
+    + cbn. rewrite Ek. exact (IH H).
+Qed.
+
+(* an objective value in the DB is permanent (metrics arrive progressively: an entry without objective value may get one) *)
+Lemma metrics_db_keep k t v db z : db_get k db = Some (Some z) -> db_get k (metrics_db t v db) = Some (Some z).
+Proof.
+  intro H. unfold metrics_db. destruct (db_get t db) as [[z1|]|] eqn:G; [exact H| |now apply db_get_app_keep].
+  destruct v as [z0|]; [|exact H].
+  destruct (db_get_map_upgrade k t z0 db z H) as [K|[-> _]]; [exact K|]. congruence.
+Qed.
+
+(* DB entries with an objective value are permanent as long as no deletion of an observation log is pending *)
+Lemma step_db_keep w a k z :
   (forall c n onf, ~ In (WDbDelete n, onf) (pending_of w c)) ->
-  db_get k (w_db w) = Some x -> db_get k (w_db (step w a)) = Some x.
+  db_get k (w_db w) = Some (Some z) -> db_get k (w_db (step w a)) = Some (Some z).
 Proof.
   intros ND H.
-  assert (Same : forall w', w_db w' = w_db w -> db_get k (w_db w') = Some x) by (intros w' ->; exact H).
+  assert (Same : forall w', w_db w' = w_db w -> db_get k (w_db w') = Some (Some z)) by (intros w' ->; exact H).
   destruct a; cbn [step].
   - destruct (pending_of w c); [|exact H]. destruct c; [|destruct (plan_sug w resp)|]; apply Same; reflexivity.
   - destruct (pending_of w c) as [|[wr onf] rest] eqn:Ep; [exact H|].
@@ -151,7 +175,7 @@ Proof.
   - apply Same. destruct c; reflexivity.
   - apply Same. reflexivity.
   - apply Same. reflexivity.
-  - destruct (find_trial t (w_trials w)), (db_get t (w_db w)) eqn:G; try exact H. cbn. now apply db_get_app_keep.
+  - destruct (find_trial t (w_trials w)); [|exact H]. cbn. now apply metrics_db_keep.
   - destruct (find_trial t (w_trials w)) as [tr|]; [|exact H]. destruct (_ && _); [|exact H]. cbn.
     destruct v, (db_get t (w_db w)); try exact H. cbn. now apply db_get_app_keep.
   - destruct (i_dep (w_infra w)); apply Same; reflexivity.
@@ -166,7 +190,7 @@ Qed.
 Lemma step_ob w a : Inv w -> ObInv w -> is_teardown a = false -> ObInv (step w a).
 Proof.
   intros Iv [A B C D] NT. pose proof Iv as [I P].
-  assert (Keep : forall k x, db_get k (w_db w) = Some x -> db_get k (w_db (step w a)) = Some x) by (intros; now apply step_db_keep).
+  assert (Keep : forall k z, db_get k (w_db w) = Some (Some z) -> db_get k (w_db (step w a)) = Some (Some z)) by (intros; now apply step_db_keep).
   assert (St : forall t z, In t (w_trials (step w a)) -> objective t = Some z -> db_get (t_name t) (w_db (step w a)) = Some (Some z)).
   { intros t' z I' O.
     destruct (tgrow_in _ _ _ _ (step_trials w a Iv NT) I') as [(t&It&E)|(n&->)]; [|discriminate].
